@@ -69,63 +69,101 @@ class Graph:
                 dq.append(v)
         return None
 
-    def covering_walks(self, seed=0, max_len=60, limit_edges=None):
-        """Walks from an initial state that together traverse every edge at least once.
-
-        Greedy: follow an uncovered out-edge while there is one; otherwise take the shortest
-        path to the nearest node with one; a walk ends when it exceeds max_len (a short
-        failing walk is easier to read) or nothing uncovered is reachable from it."""
+    def covering_walks(self, seed=0, max_len=60, limit_edges=None, budget=1000):
+        """Walks from an initial state that together traverse every edge at least once, in
+        O(E * depth): BFS-tree prefix to a state with uncovered out-edges (deepest first), then greedy
+        through uncovered edges with a bounded look-ahead to the nearest state that still has some.
+        limit_edges: stop once that many edges are covered (sampling for big graphs)."""
         rnd = random.Random(seed)
-        order = {k: list(v) for k, v in self.out.items()}
-        for v in order.values():
-            rnd.shuffle(v)
-        uncovered_out = {k: set(v) for k, v in order.items()}
-        remaining = sum(len(v) for v in uncovered_out.values())
-        if limit_edges is not None:
-            remaining_target = max(0, remaining - limit_edges)
-        else:
-            remaining_target = 0
+        parent = {}
+        dq = collections.deque()
+        for i in self.inits:
+            parent[i] = None
+            dq.append(i)
+        order = []
+        while dq:
+            u = dq.popleft()
+            order.append(u)
+            for ei in self.out.get(u, ()):
+                v = self.edges[ei][2]
+                if v not in parent:
+                    parent[v] = (u, ei)
+                    dq.append(v)
+        unc = {k: list(v) for k, v in self.out.items()}
+        for k in sorted(unc):
+            rnd.shuffle(unc[k])
+        covered = set()
         walks = []
-        init_i = 0
-        while remaining > remaining_target:
-            start = self.inits[init_i % len(self.inits)]
-            init_i += 1
-            cur = start
-            walk = []
-            progressed = False
-            while True:
-                unc = uncovered_out.get(cur)
-                if unc:
-                    # deterministic given the seed: first uncovered in shuffled order
-                    ei = next(e for e in order[cur] if e in unc)
-                    unc.discard(ei)
-                    remaining -= 1
-                    progressed = True
-                    walk.append(ei)
-                    cur = self.edges[ei][2]
-                    if len(walk) >= max_len:
-                        break
+
+        def live(u):
+            lst = unc.get(u)
+            while lst and lst[-1] in covered:
+                lst.pop()
+            return bool(lst)
+
+        def path_to(u):
+            p = []
+            while parent[u] is not None:
+                pu, pe = parent[u]
+                p.append(pe)
+                u = pu
+            p.reverse()
+            return u, p
+
+        def near(u, room):
+            prev = {u: None}
+            q = collections.deque([(u, 0)])
+            n = 0
+            while q and n < budget:
+                x, d = q.popleft()
+                n += 1
+                if d >= room:
                     continue
-                path = self._bfs_to_uncovered(cur, uncovered_out)
-                if path is None:
-                    break
-                if walk and len(walk) + len(path) >= max_len:
-                    break
-                for ei in path:
-                    walk.append(ei)
-                    # a traversed edge counts as covered too
-                    s = uncovered_out.get(self.edges[ei][0])
-                    if s and ei in s:
-                        s.discard(ei)
-                        remaining -= 1
-                    cur = self.edges[ei][2]
-            if not progressed:
-                # nothing uncovered reachable from any init: stop (unreachable leftovers cannot exist
-                # because every edge was generated from a reachable state)
-                if init_i > len(self.inits):
-                    break
+                for ei in self.out.get(x, ()):
+                    v = self.edges[ei][2]
+                    if v in prev:
+                        continue
+                    prev[v] = (x, ei)
+                    if live(v):
+                        p = []
+                        while prev[v] is not None:
+                            px, pe = prev[v]
+                            p.append(pe)
+                            v = px
+                        p.reverse()
+                        return p
+                    q.append((v, d + 1))
+            return None
+
+        starts = list(reversed(order))
+        if limit_edges is not None:
+            rnd.shuffle(starts)
+        for u in starts:
+            if u not in parent:
                 continue
-            walks.append(self._mk(start, walk))
+            while live(u):
+                start, walk = path_to(u)
+                covered.update(walk)
+                cur = u
+                first = True      # always take at least one uncovered edge, however deep u is
+                while first or len(walk) < max_len:
+                    first = False
+                    if live(cur):
+                        ei = unc[cur].pop()
+                        covered.add(ei)
+                        walk.append(ei)
+                        cur = self.edges[ei][2]
+                        continue
+                    p = near(cur, min(6, max_len - len(walk) - 1))
+                    if not p:
+                        break
+                    covered.update(p)
+                    walk.extend(p)
+                    cur = self.edges[p[-1]][2]
+                walks.append(self._mk(start, walk))
+                if limit_edges is not None and len(covered) >= limit_edges:
+                    return walks
+        self.covered = len(covered)
         return walks
 
     def random_walks(self, n, depth, seed=0):
